@@ -60,3 +60,28 @@ impl<T> IndexSet<T> {
 }
 
 } // verus!
+verus! {
+
+pub proof fn lemma_has_key_push<T>(s: Seq<T>, v: T, c: T)
+    ensures has_key(s.push(v), c) == (has_key(s, c) || key_eq(v, c))
+{
+    let s2 = s.push(v);
+    if has_key(s2, c) {
+        let i = choose|i: int| 0 <= i < s2.len() && key_eq(#[trigger] s2[i], c);
+        if i < s.len() { assert(key_eq(s[i], c)); }
+    }
+    if has_key(s, c) {
+        let i = choose|i: int| 0 <= i < s.len() && key_eq(#[trigger] s[i], c);
+        assert(key_eq(s2[i], c));
+    }
+    if key_eq(v, c) { assert(key_eq(s2[s.len() as int], c)); }
+}
+
+impl<T> Default for IndexSet<T> {
+    #[verifier::external_body]
+    fn default() -> (r: IndexSet<T>)
+        ensures r@ == Seq::<T>::empty()
+    { unimplemented!() }
+}
+
+} // verus!
